@@ -448,6 +448,11 @@ class Calibrator(BaseSeedable):
 
                 self.current_batch_index += 1
 
+                # the checkpoint is written before the convergence check, so that it includes the batch
+                # that triggers the early termination
+                if self.saving_folder is not None:
+                    self.create_checkpoint(self.saving_folder)
+
                 # check convergence for early termination
                 if self.convergence_precision is not None:
                     converged = self.check_convergence(
@@ -459,9 +464,6 @@ class Calibrator(BaseSeedable):
                         print("\nCONVERGENCE CHECK:")
                         print("Achieved convergence loss, stopping search.")
                         break
-
-                if self.saving_folder is not None:
-                    self.create_checkpoint(self.saving_folder)
 
             idx = np.argsort(self.losses_samp)
 
